@@ -26,13 +26,14 @@ FIELDS = [("string", "s"), ("string", "s2"), ("string", "opt"), ("varint", "n"),
           ("boolean", "b"), ("filesize", "size")]
 FIELDS2 = [("string", "s"), ("varint", "n"), ("string", "extra")]
 
-ADAPTERS = ["stream", "jsonfile", "avro", "csvfile", "sqlite"]
+ADAPTERS = ["stream", "jsonfile", "jsonfile-plain", "avro", "csvfile", "sqlite"]
 
 
 def url_for(adapter, d):
     return {
         "stream": os.path.join(d, "x.records"),
         "jsonfile": os.path.join(d, "x.json"),
+        "jsonfile-plain": "jsonfile://" + os.path.join(d, "y.json"),
         "avro": os.path.join(d, "x.avro"),
         "csvfile": "csvfile://" + os.path.join(d, "x.csv"),
         "sqlite": "sqlite://" + os.path.join(d, "x.db"),
@@ -108,8 +109,8 @@ def check(case, ctx):
     tmp = ctx.fresh_dir()
     try:
         url = url_for(adapter, tmp)
-        if records or adapter in ("stream", "jsonfile", "sqlite"):
-            w = RecordWriter(url)
+        if records or adapter in ("stream", "jsonfile", "jsonfile-plain", "sqlite"):
+            w = RecordWriter(url + ("?descriptors=false" if adapter == "jsonfile-plain" else ""))
             try:
                 for r in records:
                     w.write(r)
